@@ -12,7 +12,7 @@ import ticc_util as tu
 from common import show_list, frac_str
 
 LEVEL = "other"
-LEAN_PROPS = ["FastTicc.Props.C03", "FastTicc.Props.C11", "FastTicc.Props.C02matrix"]
+LEAN_PROPS = ["FastTicc.Props.C03", "FastTicc.Props.C11", "FastTicc.Props.C02matrix", "FastTicc.Props.OptPhase"]
 LEAN_HELPERS = ["FastTicc.Proofs.Admm", "FastTicc.Proofs.AdmmMatrix"]
 RULE = ("(a) the X-update eigenvalue map over 26 orders of magnitude of d (model at Float in both algebraic forms, real "
         "x_update_prox on 1x1 problems); (b) the optimiser entry point on covariances scaled 1e-12..1e12: full rank, rank "
